@@ -1,10 +1,11 @@
 #!/bin/bash
 # sweep.sh <tier> [seed ...] — runs every claimed check at the given tier (for each seed) and prints one line per run:
+# env PROPS="C03 C07" restricts/orders the properties.
 #   <id> seed=<s> rc=<exit> violations=<n> known=<n> <last log line>.  Exit 1 if any run has rc != 0.
 cd "$(dirname "$0")/.."
 tier=${1:-quick}; shift; seeds=${*:-1}; bad=0
 for s in $seeds; do
-  for p in $(jq -r '.checks[].property_id' MANIFEST.json); do
+  for p in ${PROPS:-$(jq -r '.checks[].property_id' MANIFEST.json)}; do
     out=$(VERIF_SEED=$s ./check "$p" --tier "$tier" 2>.build/sweep-$p.err); rc=$?
     echo "$p seed=$s rc=$rc violations=$(echo "$out" | grep -c '^VIOLATION') known=$(echo "$out" | grep -c '^KNOWN-FINDING') $(tail -1 .build/sweep-$p.err | cut -c1-160)"
     [ $rc -ne 0 ] && { bad=1; echo "$out" | grep '^VIOLATION' | head -5; tail -5 .build/sweep-$p.err; }
